@@ -130,6 +130,14 @@ def minus_self(k):
     return k - k
 
 
+def capped(s, k):
+    """One-armed if that rebinds a name the code after it reads."""
+    v = k * s
+    if v > 0.75:
+        v = 0.75
+    return v + 0.1 * s
+
+
 def weighted3(a, b, c):
     return a + 2 * b + 4 * c
 
